@@ -4,6 +4,7 @@
 //   qc  queue<int>, every pop is issued by a coroutine (`auto f = q.pop(); co_await f`) that logs what it sees;
 //       push / unblock_pop / ~queue resume it through the returned suspend_point (resumption order = log order)
 //   qv  queue<void>
+//   qm  queue<std::unique_ptr<int>> (move-only items), same driver as q
 //   lq  limited_queue<int>; first op `0 limit` constructs it; unblock_pop (protected base) goes through a derived
 //       class that re-exports it with a using-declaration
 //   q2  queue<Item>, pushes can be split at the unlock: push_begin runs q.push() on its own thread and the value's
@@ -21,6 +22,15 @@ struct test_exc {
 };
 
 // ---- observation of one future ----
+static long to_long(int &x) { return x; }
+static long to_long(std::unique_ptr<int> &x) { return x ? *x : -12345; }   // move-only item; a moved-from item would show as -12345
+template <typename X>
+static long to_long(X &x) { return (long)x; }
+template <typename T>
+static T make_item(long v) {
+    if constexpr (std::is_same_v<T, std::unique_ptr<int>>) return std::make_unique<int>((int)v);
+    else return (T)v;
+}
 template <typename F>
 static std::array<long, 3> read_state(F &f) {
     long ready = f.ready() ? 1 : 0, code = 0, val = 0;
@@ -28,7 +38,7 @@ static std::array<long, 3> read_state(F &f) {
         if constexpr (std::is_void_v<typename F::value_type>) {
             f.value();
         } else {
-            val = (long)f.value();
+            val = to_long(f.value());
         }
         code = 0;
     } catch (const await_canceled_exception &) {
@@ -127,7 +137,7 @@ static void run_plain(const vh::Case &cs) {
         switch (op[0]) {
             case 1: {
                 if constexpr (is_void) { auto sp = q->push(); ret = (bool)sp; }
-                else { auto sp = q->push((int)op[1]); ret = (bool)sp; }
+                else { auto sp = q->push(make_item<T>(op[1])); ret = (bool)sp; }
                 break;
             }
             case 2: ret = tab.add([&] { return q->pop(); }); break;
@@ -365,6 +375,7 @@ int main(int argc, char **argv) {
         std::fflush(stdout);
         if (cs.engine == "q") run_plain<int>(cs);
         else if (cs.engine == "qv") run_plain<void>(cs);
+        else if (cs.engine == "qm") run_plain<std::unique_ptr<int>>(cs);
         else if (cs.engine == "qc") run_coro(cs);
         else if (cs.engine == "lq") run_limited(cs);
         else if (cs.engine == "q2") run_two_phase(cs);
